@@ -111,6 +111,14 @@ def run(ctx):
 
     # ---- D3/D4 the slice
     ctx.clause = 'D3'
+    # the bounding frequencies become a half-open channel range [get_index(lo), get_index(hi)): the exclusive upper index has to
+    # be able to reach fchans (and exceed it, then clipped by add_signal), so get_index must be the plain rounded offset --
+    # an index clamped into [0, fchans-1] would drop the last channel of every range that touches the upper band edge
+    gi = ctx.func(FR + 'get_index')
+    rgi, _ = ctx.run(gi)
+    ctx.formula('FORMULA', 'get_index is the unclamped rounded channel offset round((f - fmin)/df) (the exclusive upper bound of a '
+                'bounding range can reach fchans)', gi, rgi.ret,
+                ctx.spec(gi, 'np.round((frequency - self.fmin) / self.df).astype(int)'), node=gi.node, construct='return get_index')
     T.NOTNONE.update({'path', 't_profile', 'f_profile', 'BFR'})
     T.SYMKIND.update({'path': 'callable', 't_profile': 'callable'})
     F = ctx.spec(fi, 'self.fchans')
